@@ -79,6 +79,7 @@ def run(facts, rep):
     d11_local_ownership(facts, rep)
     d12_no_user_code_after_self_destruction(facts, rep)
     d12_fold_tolerates_throwing_join(facts, rep)
+    d13_constructor_reservations(facts, rep)
     idiom(facts, rep)
 
 
@@ -706,3 +707,52 @@ def d12_fold_tolerates_throwing_join(facts, rep):
                    % '; '.join(n_ for n_ in notes if 'throws' in n_), key_extra='fold-restore')
     if n < 1:
         raise AnalysisBroken('no tree fold calls a join that can throw (parallel_reduce is no longer instantiated by the drivers?)')
+
+
+def d13_constructor_reservations(facts, rep):
+    """A class whose constructor reserves a reference of a wait context (the graph's "work in flight" counter) while classes
+    derived from it can still fail to construct (their constructors copy the user's message or body, which may throw) has to
+    give the reference back when that happens: the destructor of the base sub-object is the only code that runs.  Otherwise the
+    exception reaches the caller of try_put, but the counter never returns to zero and wait_for_all() blocks for ever - the
+    graph is not "reusable afterwards"."""
+    from rules.common import MayThrow
+    mt = MayThrow(facts, external_may_throw=False)
+
+    def reserves(g, e):
+        if not isinstance(e, int) or g.nodes[e].get('k') != 'call':
+            return False
+        q = (g.callee(e) or {}).get('q') or ''
+        return q.endswith('::reserve') and ('wait_tree_vertex_interface' in q or 'wait_context' in q or 'reference_vertex' in q)
+
+    def releases(g, e):
+        if not isinstance(e, int) or g.nodes[e].get('k') != 'call':
+            return False
+        q = (g.callee(e) or {}).get('q') or ''
+        return q.endswith('::release') and ('wait_tree_vertex_interface' in q or 'wait_context' in q or 'reference_vertex' in q)
+    n = 0
+    done = set()
+    for fn in sorted(facts.fns.values(), key=lambda f: f.q):
+        if fn.kind != 'ctor' or not fn.q.startswith('tbb::detail::') or fn.cls in done:
+            continue
+        if not any(reserves(fn, e) for _, _, e in fn.iter_elems()):
+            continue
+        cls = fn.cls
+        done.add(cls)
+        derived = [p for p, cs in facts.classes.items() if any(cls in c.get('allbases', ()) for c in cs)]
+        throwing = []
+        for p in sorted(derived):
+            for g in facts.by_p.get(p + '::(ctor)', []):
+                if mt.fn(g.u):
+                    throwing.append(p.split('::')[-1])
+                    break
+        if not throwing:
+            continue
+        n += 1
+        dts = facts.by_p.get(cls + '::(dtor)', [])
+        ok = any(releases(d_, e) for d_ in dts for _, _, e in d_.iter_elems())
+        rep.ob('D13', 'K3', fn, 'a wait reference reserved by a base-class constructor is released by its destructor when a derived constructor throws',
+               ok, 'the constructor of %s reserves a wait reference and %d derived task classes have constructors that run user code (%s ...) - '
+               'when the user\'s copy throws nothing gives the reference back: wait_for_all() never returns'
+               % (cls.split('::')[-1], len(set(throwing)), ', '.join(sorted(set(throwing))[:3])), key_extra='ctor-reserve|' + cls)
+    if n < 1:
+        raise AnalysisBroken('no constructor reserving a wait reference with throwing derived constructors found (graph_task)')
